@@ -1076,7 +1076,7 @@ func (self *Fork) doSplit(getBindings func() MarshalerMap) MetadataState {
 
 func (self *Fork) doChunks(state MetadataState, getBindings func() MarshalerMap) MetadataState {
 	self.node.top.rt.JobManager.endJob(self.split_metadata)
-	if self.isVolatile() && !self.node.vdrAcrossSymlink() {
+	if self.isVolatile() && !self.vdrAcrossSymlink() {
 		lockAquired := make(chan struct{}, 1)
 		go func() {
 			self.storageLock.Lock()
